@@ -14,6 +14,7 @@ import (
 	"time"
 
 	"github.com/google/uuid"
+	hio "github.com/hprose/hprose-golang/v3/io"
 )
 
 // Val is one value with the name of its class.
@@ -32,6 +33,16 @@ type Gen struct {
 }
 
 func val(x interface{}, class string) Val { return Val{reflect.ValueOf(x), class} }
+
+// Some of the named struct types are registered by name, so that an interface{} destination gets a
+// pointer to the struct (the registered path); the others (Plain, Node, ...) stay unregistered and come
+// back as maps.
+func init() {
+	hio.Register((*Tagged)(nil))
+	hio.Register((*Derived)(nil))
+	hio.Register((*Widths)(nil))
+	hio.Register((*Node2)(nil))
+}
 
 // named types for the named paths of the coders
 type (
